@@ -16,6 +16,7 @@ pub mod c14;
 pub mod c05;
 pub mod c11;
 pub mod c17;
+pub mod c18;
 
 pub fn meta(id: &str, tier: &str) -> Option<CheckMeta> {
     match id {
@@ -34,6 +35,7 @@ pub fn meta(id: &str, tier: &str) -> Option<CheckMeta> {
         "C05" => Some(c05::meta(tier)),
         "C11" => Some(c11::meta(tier)),
         "C17" => Some(c17::meta(tier)),
+        "C18" => Some(c18::meta(tier)),
         _ => None,
     }
 }
@@ -46,7 +48,7 @@ pub fn master(id: &str, tier: &str, seed: u64) -> i32 {
 }
 
 pub fn prebuild(_id: &str) -> Result<(), String> {
-    for z in crate::zoo::core_zoo().into_iter().chain(std::iter::once(crate::zoo::tmpl())) {
+    for z in crate::zoo::core_zoo().into_iter().chain(std::iter::once(crate::zoo::tmpl())).chain(std::iter::once(crate::zoo::tagl())) {
         crate::lang::build(&z.spec, tree_sitter_generate::OptLevel::default()).map_err(|e| format!("{}: {}", z.name, e))?;
     }
     Ok(())
@@ -69,6 +71,7 @@ pub fn worker(ctx: &Ctx, res: &mut ShardResult) {
         "C05" => c05::worker(ctx, res),
         "C11" => c11::worker(ctx, res),
         "C17" => c17::worker(ctx, res),
+        "C18" => c18::worker(ctx, res),
         _ => panic!("unknown check"),
     }
 }
@@ -94,6 +97,7 @@ pub fn replay(path: &str) -> i32 {
         "C05" => c05::replay(&v["case"]),
         "C11" => c11::replay(&v["case"]),
         "C17" => c17::replay(&v["case"]),
+        "C18" => c18::replay(&v["case"]),
         _ => vec![format!("no replayer for {}", id)],
     };
     let _ = json!(null);
